@@ -544,6 +544,44 @@ theorem global_publishes_file_value {fs : Bytes → Option Bytes} {enc : Encoder
     ∃ x v, globalName el = some x ∧ t.find x = some (some v) ∧ st.globals.find x = none ∧
       st' = { st with globals := pub1 st.globals x v } := Glob.global_inv hg h hl hfound
 
+/-! ### stage 1 as an instance -/
+
+theorem okInc_not3 {el : Element} (h : okInc el = true) : isGlobal el = false ∧ isExport el = false ∧ isImport el = false := by
+  obtain ⟨line, col, val⟩ := el
+  cases val with
+  | label n => exact ⟨rfl, rfl, rfl⟩
+  | instruction n a => exact ⟨rfl, rfl, rfl⟩
+  | directive name args =>
+    simp only [okInc, Bool.not_eq_true', Bool.or_eq_false_iff, decide_eq_false_iff_not] at h
+    simp only [isGlobal, isExport, isImport, decide_eq_false_iff_not]
+    exact ⟨h.1.1, h.2, h.1.2⟩
+
+theorem elsOk_of_okInc (fs : Bytes → Option Bytes) (path : Bytes) (proj : List Bytes → Bytes → Bytes → Prop) (avail : List Bytes) :
+    ∀ (els : List Element) (seen : List Bytes),
+      (∀ el ∈ els, okInc el = true ∧ ∀ p' d', incTarget fs path el = some (p', d') → ∀ a, proj a p' d') →
+      ElsOk fs path proj avail seen els := by
+  intro els
+  induction els with
+  | nil => intro _ _; trivial
+  | cons el els ih =>
+    intro seen hok
+    have hel := hok el List.mem_cons_self
+    have h3 := okInc_not3 hel.1
+    exact ⟨fun hg => (by rw [h3.1] at hg; cases hg), fun hm => (by rw [h3.2.2] at hm; cases hm),
+      fun p' d' ht => hel.2 p' d' ht _, ih _ (fun x hx => hok x (List.mem_cons_of_mem _ hx))⟩
+
+/-- the side condition of stage 1 (`.include` with file-local names) is an instance of the side condition of stage 3: the
+strong theorems apply to every project covered by `layout_refines_asm_includes_partial` -/
+theorem xferProject_of_local (fs : Bytes → Option Bytes) : ∀ (fuel : Nat) (avail : List Bytes) (path data : Bytes),
+    LocalProject fs fuel path data → XferProject fs fuel avail path data := by
+  intro fuel
+  induction fuel with
+  | zero => intro _ _ _ _; trivial
+  | succ fuel ih =>
+    intro avail path data h els perr hp
+    exact elsOk_of_okInc fs path _ avail els []
+      (fun el hel => ⟨(h els perr hp el hel).1, fun p' d' ht a => ih a p' d' ((h els perr hp el hel).2 p' d' ht)⟩)
+
 /-! ### non-vacuity -/
 
 /-- a decidable form of `ElsOk` / `XferProject` -/
